@@ -26,7 +26,12 @@ EXPLANATION = (
   "renamer tests are types its collector emits; (R4) that process_renames patches "
   "[start, start+len(name)) of the dollar-free text, maps patches back through the same dollar "
   "replacer onto the original text, and returns its input unchanged when it does not parse; (R5) "
-  "that the user-attribute table map is complete before it is first used. Not decided: that the "
+  "that the user-attribute table map is complete before it is first used; (R6) that each "
+  "record's new text is the direct result of its own process_renames call (no memo shared "
+  "across records). Roles are found by data flow, not by name: a local stands for the value "
+  "it holds where it is read, guards are read from the CFG (either polarity, early "
+  "continue/return, flags), arguments are bound by parameter name, private helpers called "
+  "from the analysed functions are followed. Not decided: that the "
   "re-parsed tree equals the old tree up to the renamed names (value level); rules stored for "
   "tables that are renamed at the same time.")
 
@@ -115,6 +120,18 @@ def r6_per_record(run, w, rewriters):
         ok = direct and not memo
         wit = None if ok else ("bindings that are not direct calls" if not direct else
                                "call guarded by a memo: %s" % memo)
+        if ok:
+          # the renamer belongs to this record: a closure defined in the loop body (a renamer
+          # built elsewhere may or may not see the current record -- not decided here)
+          pb = H.bind_args(c, ("formula", "collector", "renamer")) or {}
+          ra = v.res(pb["renamer"]) if pb.get("renamer") is not None else None
+          per_rec = isinstance(ra, ast.Name) and any(
+            isinstance(x, ast.FunctionDef) and x.name == ra.id
+            for b in loop.body for x in ast.walk(b))
+          if not per_rec:
+            raise AnalysisError("%s: the renamer handed to process_renames is not a closure "
+                                "defined for the current record; cannot tell whether it sees "
+                                "that record's table" % fn.qualname)
       run.ob(R6, fn.qualname, short(st, 90), "the new text of a record comes from its own "
              "process_renames call", ok, witness=wit, fi=fn.fi, node=st)
 
